@@ -288,6 +288,60 @@ def _exact_case(arg):
     return res.as_dict()
 
 
+def _exact_nd_case(arg):
+    """The exact sub-space in two and three dimensions: dyadic points, centres and radii on ORTHOGONAL dyadic lattices
+    (for these the library's reciprocal vectors and fractional coordinates are exact, so an image exactly on the sphere
+    is decidable; on skewed lattices the SVD rounds and such images are genuine floating-point ties).  |p + n.a - c| <= r
+    is enforced literally, nothing is a tie."""
+    lname, wrap, seed = arg
+    from grid.periodicgrid import PeriodicGrid
+
+    res = WorkerResult(section="exact-dyadic-nd")
+    lat = {"sq2": np.array([[1.0, 0.0], [0.0, 1.0]]), "rect2": np.array([[1.0, 0.0], [0.0, 2.0]]), "one2": np.array([[2.0, 0.0]]),
+           "neg2": np.array([[-1.0, 0.0], [0.0, 0.5]]),
+           "cube3": np.eye(3), "box3": np.diag([1.0, 2.0, 0.5]), "two3": np.array([[1.0, 0.0, 0.0], [0.0, 1.0, 0.0]]),
+           "neg3": np.diag([1.0, -2.0, 0.5])}[lname]
+    dim = lat.shape[1]
+    pts = np.array([[0, 0, 0], [0.5, 0.25, 0.75], [0.25, 0.75, 0.5], [0.75, 0.5, 0.25], [0.5, 0.5, 0.5]], dtype=float)[:, :dim]
+    if not wrap:
+        pts = pts + np.array([[0, 0, 0], [1, 0, 0], [0, -2, 0], [0, 0, 0], [-1, 2, 0]], dtype=float)[:, :dim] @ np.eye(dim)
+    w = np.arange(1.0, len(pts) + 1)
+    case0 = {"exact-nd": True, "lattice": lname, "wrap": wrap}
+    with warnings.catch_warnings():
+        warnings.simplefilter("ignore")
+        g = PeriodicGrid(pts.copy(), w.copy(), lat, wrap=wrap)
+    gp = np.asarray(g.points, dtype=float)
+    centres = [np.zeros(dim), np.full(dim, 0.5), np.array([0.25, 0.0, 0.5])[:dim], np.array([3.0, -2.5, 0.25])[:dim]]
+    for ci, c in enumerate(centres):
+        for r in (0.0, 0.25, 0.5, 0.75, 1.0, 1.25, 2.0, 2.5):
+            res.count()
+            case = dict(case0, centre=ci, radius=r)
+            ref = []
+            K = int(np.ceil(r + np.abs(gp - c).max())) * 2 + 3
+            for n in itertools.product(range(-K, K + 1), repeat=len(lat)):
+                t = np.array(n, dtype=float) @ lat
+                d2 = np.sum((gp + t - c) ** 2, axis=1)        # exact for dyadic inputs
+                for i in np.nonzero(d2 <= r * r)[0]:
+                    ref.append((int(i), tuple(float(v) for v in gp[i] + t)))
+            ref.sort()
+            try:
+                with warnings.catch_warnings():
+                    warnings.simplefilter("ignore")
+                    loc = g.get_localgrid(c.copy(), r)
+            except Exception as exc:
+                res.violation(f"exact:query:raised:{type(exc).__name__}", f"{lname} wrap={wrap} centre={c.tolist()} radius={r}: {exc}", case)
+                continue
+            got = sorted((int(i), tuple(float(v) for v in p)) for i, p in zip(np.asarray(loc.indices), np.asarray(loc.points, dtype=float)))
+            res.nontrivial()
+            if got != ref:
+                sig = "images-missing" if len(got) < len(ref) else ("extra-images" if len(got) > len(ref) else "wrong-images")
+                res.violation(f"exact:query:{sig}", f"{dim}-D orthogonal dyadic lattice {lname}, wrap={wrap}, centre={c.tolist()}, radius={r}: "
+                              f"{len(got)} images, exactly {len(ref)} satisfy |p + n.a - c| <= r (missing {sorted(set(ref) - set(got))[:2]})", case)
+            elif len(got) and not np.array_equal(np.asarray(loc.weights), w[np.asarray(loc.indices)]):
+                res.violation("exact:query:weights", f"{lname}: local weights are not the parent weights", case)
+    return res.as_dict()
+
+
 class World:
     """E1 world (added after seeded change C11-D was missed): one PeriodicGrid WITH lattice vectors used over a
     history of queries, reassignments of weights / points and in-place edits of the local grid handed out last.
@@ -397,6 +451,9 @@ def run(ctx):
     ctx.cov["history_depth"] = 4 if ctx.thorough else 3
     for res in lattice.pmap(_exact_case, [(a, wr, ctx.seed) for a in (1.0, 0.5, 2.0, -1.0, -0.5) for wr in (False, True)], ctx.workers):
         ctx.merge(res)
+    nd = [(ln, wr, ctx.seed) for ln in ("sq2", "rect2", "one2", "neg2", "cube3", "box3", "two3", "neg3") for wr in (False, True)]
+    for res in lattice.pmap(_exact_nd_case, nd, ctx.workers):
+        ctx.merge(res)
     jobs = []
     for dim, menu in LATTICES.items():
         for lname in menu:
@@ -418,6 +475,8 @@ def replay(ctx, case):
         from vf import explore
 
         return explore.replay_history(ctx, case)
+    if case.get("exact-nd"):
+        return ctx.merge(_exact_nd_case((case["lattice"], case["wrap"], ctx.seed)))
     if case.get("exact"):
         ctx.merge(_exact_case((case["a"], case["wrap"], ctx.seed)))
         return
